@@ -216,30 +216,49 @@ def _is_data_none(t, allow_name=False):
 
 
 def _data_guarded(fnode) -> bool:
-    """Every Load of the parameter `data` that is not itself the guard is in the
-    right operand of `data and ...` or after `if data is None: return`."""
-    guard_if = None
-    for st in fnode.body:
-        if isinstance(st, ast.If) and isinstance(st.test, ast.Compare) and isinstance(st.test.left, ast.Name) and st.test.left.id == 'data' and isinstance(st.test.ops[0], ast.Is) and any(isinstance(s, ast.Return) for s in st.body):
-            guard_if = st
+    """Every Load of the parameter `data` that is not itself the guard is in the right operand of
+    `data and ...` or is reached only through a "data is not None" edge of the CFG (guard clause
+    `if data is None: return`, positive `if data is not None:`, truthiness tests)."""
+    cfg = cfg_of(fnode)
+    nonnull = []
+    for st in walk_local(fnode):
+        if isinstance(st, ast.If):
+            t = st.test
+            neg = False
+            if isinstance(t, ast.UnaryOp) and isinstance(t.op, ast.Not):
+                t, neg = t.operand, True
+            if isinstance(t, ast.Name) and t.id == 'data':
+                nonnull += cfg.nodes_of(st, 'false' if neg else 'true')
+            elif isinstance(t, ast.Compare) and len(t.ops) == 1 and isinstance(t.left, ast.Name) and t.left.id == 'data' and isinstance(t.comparators[0], ast.Constant) and t.comparators[0].value is None:
+                if isinstance(t.ops[0], (ast.Is, ast.Eq)):
+                    nonnull += cfg.nodes_of(st, 'true' if neg else 'false')
+                elif isinstance(t.ops[0], (ast.IsNot, ast.NotEq)):
+                    nonnull += cfg.nodes_of(st, 'false' if neg else 'true')
     for n in ast.walk(fnode):
         if isinstance(n, ast.Name) and n.id == 'data' and isinstance(n.ctx, ast.Load):
             par = getattr(n, '_parent', None)
             # guard positions
             if isinstance(par, ast.BoolOp) and isinstance(par.op, ast.And) and par.values[0] is n:
                 continue
-            if isinstance(par, ast.Compare) and par.left is n and isinstance(par.ops[0], (ast.Is, ast.IsNot)):
+            if isinstance(par, ast.Compare) and par.left is n and isinstance(par.ops[0], (ast.Is, ast.IsNot, ast.Eq, ast.NotEq)):
                 continue
-            # guarded use
+            if isinstance(par, ast.If) and par.test is n:
+                continue
+            if isinstance(par, ast.UnaryOp) and isinstance(par.op, ast.Not):
+                continue
             ok = False
             cur = n
             while cur is not None and cur is not fnode:
                 p = getattr(cur, '_parent', None)
                 if isinstance(p, ast.BoolOp) and isinstance(p.op, ast.And) and p.values and isinstance(p.values[0], ast.Name) and p.values[0].id == 'data' and cur is not p.values[0]:
                     ok = True
+                if isinstance(p, ast.IfExp) and cur is p.body and isinstance(p.test, ast.Compare) and isinstance(p.test.left, ast.Name) and p.test.left.id == 'data' and isinstance(p.test.ops[0], ast.IsNot):
+                    ok = True
                 cur = p
-            if guard_if is not None and n.lineno > guard_if.end_lineno:
-                ok = True
+            if not ok and nonnull:
+                st = enclosing_stmt(n)
+                nodes = cfg.nodes_of(st, ('stmt', 'test'))
+                ok = bool(nodes) and all(cfg.set_dominates(nonnull, x) for x in nodes)
             if not ok:
                 return False
     return True
